@@ -114,7 +114,7 @@ func (ex *Exec) staticCall(fr *Frame, ins ssa.Instruction, fn *ssa.Function, arg
 		}
 		return
 	}
-	if fn.Blocks != nil && ((c != nil && c.Inline) || (c == nil && fn.Parent() != nil && ex.isOwnClosure(fn))) {
+	if fn.Blocks != nil && ((c != nil && c.Inline) || (c == nil && fn.Parent() != nil && ex.isOwnClosure(fn)) || (c == nil && ex.smallLeaf(fn))) {
 		if len(ex.st.frames) > 12 {
 			unsup("inline depth exceeded at %s", fn.Name())
 		}
@@ -1120,4 +1120,39 @@ func (ex *Exec) resultHandles(env *Env) []resTerm {
 		add(0, r)
 	}
 	return out
+}
+
+
+// smallLeaf: a function of the repository without a contract that is small, loop-free and not already being executed is
+// run in place instead of being abstracted by "anything may have happened" (an extracted three-line helper stays as
+// transparent as the lines it replaced).
+func (ex *Exec) smallLeaf(fn *ssa.Function) bool {
+	if fn.Pkg == nil || fn.Blocks == nil || len(fn.Blocks) > 8 {
+		return false
+	}
+	if _, loaded := ex.prog.SPkgs[funcPkgPath(fn)]; !loaded {
+		return false
+	}
+	for _, f := range ex.st.frames {
+		if f.fn == fn {
+			return false
+		}
+	}
+	if len(ex.st.frames) > 4 {
+		return false
+	}
+	if len(ex.loops(fn).heads) > 0 {
+		return false
+	}
+	n := 0
+	for _, b := range fn.Blocks {
+		for _, ins := range b.Instrs {
+			n++
+			switch ins.(type) {
+			case *ssa.Go, *ssa.Defer, *ssa.Select, *ssa.Send, *ssa.Panic:
+				return false
+			}
+		}
+	}
+	return n <= 60
 }
